@@ -8,7 +8,8 @@ import coqemit as E
 
 ID = "C16"
 PROPS = "Props/C16.v"
-IMPORTS = "From Coq Require Import String PrimFloat.\nFrom PV Require Import Lib.Common Lib.C16_Spec Model.C16_Store Model.C16_Heap Model.C16_Codec Gen.C16_Fields."
+IMPORTS = ("From Coq Require Import String PrimFloat.\nFrom PV Require Import Lib.Common Lib.C16_Spec Model.C16_Store Model.C16_Heap Model.C16_Codec "
+           "Gen.C16_Fields Gen.C16_Kernel Model.C16_Kernel Model.C16_Maps.")
 SHARD = 40
 SERIAL = False
 LEVEL_TEXT = ("Coq theorems over executable models of (1) the HDF5 store with h5py_File_write_dict, the typed readers and the table-driven "
@@ -58,6 +59,7 @@ BUILD = os.path.join(boot.VERIF, "build", "C16")
 #   {"t": "obj", "d": [repr,...]}                                             1-D object array of something else
 #   {"t": "int", "v": n}  {"t": "float", "v": hex}  {"t": "s", "v": str}  {"t": "by", "v": [bytes]}    python scalars
 #   {"t": "dict", "v": {key: value}}
+#   {"t": "list", "d": [hex floats]}                                          python list of floats (a mutable hyper-parameter value)
 NUMT = {"i8": "int8", "i32": "int32", "i64": "int64", "b": "bool", "f64": "float64"}
 TNUM = {v: k for k, v in NUMT.items()}
 
@@ -79,6 +81,7 @@ def mk(v):
     if t == "s": return v["v"]
     if t == "by": return bytes(v["v"])
     if t == "dict": return {k: mk(x) for k, x in v["v"].items()}
+    if t == "list": return [float.fromhex(x) for x in v["d"]]
     raise ValueError(t)
 
 def ob(x):
@@ -108,6 +111,7 @@ def ob(x):
     if isinstance(x, str): return {"t": "s", "v": x}
     if isinstance(x, bytes): return {"t": "by", "v": list(x)}
     if isinstance(x, dict): return {"t": "dict", "v": {str(k): ob(v) for k, v in x.items()}}
+    if isinstance(x, list) and all(isinstance(y, float) for y in x): return {"t": "list", "d": [fhex(y) for y in x]}
     return {"t": "other", "v": type(x).__name__, "d": repr(x)[:200]}
 
 def veq(a, b):
@@ -186,7 +190,10 @@ def build(key, spec):
         for f in ("var_env", "var_rep", "var_err"): kw.setdefault(f, None)
     if key in ("SGMAP", "EGMAP"):
         kw["auto_group"] = bool(spec.get("_auto_group", True)); kw["auto_build_spline"] = bool(spec.get("_spline", True))
+        if spec.get("_kind"): kw["spline_kind"] = spec["_kind"]
     o = cls(**kw)
+    if key in ("SGMAP", "EGMAP") and spec.get("_kind") and spec.get("_kind_build") and spec.get("_spline", True):
+        o.build_spline(spec["_kind"], "extrapolate")          # the library's own route to a non-default interpolation kind
     for f in CLS[key][3]:
         if f in spec: setattr(o, f, mk(spec[f]))
     for ax in spec.get("_group", []):
@@ -196,6 +203,20 @@ def build(key, spec):
 
 def observe(key, o):
     return {f: ob(getattr(o, f)) for f in attrs(key)}
+
+def _reuse(key, o, spec):
+    """lifecycle: the SAME object again, brought to the state `spec` through its property setters (None when a setter refuses,
+    e.g. a read-only attribute or a length check against the current matrix: the caller then builds a fresh object)"""
+    try:
+        for f in CLS[key][2]:
+            if f in spec and f != "ploidy": setattr(o, f, mk(spec.get(f)))
+        for f in CLS[key][3]: setattr(o, f, mk(spec[f]) if f in spec else None)
+        for ax in spec.get("_group", []):
+            if ax == "taxa": o.group_taxa() if hasattr(o, "group_taxa") else o.group()
+            elif ax == "vrnt": o.group_vrnt()
+        return o
+    except Exception:
+        return None
 
 # ------------------------------------------------------------------------------------------------ HDF5
 def h5dump(fn):
@@ -230,10 +251,23 @@ def run_h5(case):
     fn = _tmp(case, ".h5")
     if os.path.exists(fn): os.remove(fn)
     grp = case["group"]
-    out = {"orig": [], "writes": [], "reads": [], "dumps": []}
+    out = {"orig": [], "writes": [], "reads": [], "dumps": [], "routes": []}
+    routes = case.get("routes") or ["new"] * len(case["objs"])
+    prev = None
     try:
-        for spec, ow in zip(case["objs"], case["overwrite"]):
-            o = build(key, spec)
+        for spec, ow, route in zip(case["objs"], case["overwrite"], routes):
+            # where the object written comes from: the constructor, copy.copy / copy.deepcopy of a constructed object, or the object
+            # of the previous step updated in place through its setters ("a result depends on the state at the call")
+            o, used = None, "new"
+            if route == "setattr" and prev is not None and key != "GE":
+                o = _reuse(key, prev, spec)
+                if o is not None: used = "setattr"
+            if o is None:
+                o = build(key, spec)
+                if route == "copy": o = _copy.copy(o); used = "copy"
+                elif route == "deepcopy": o = _copy.deepcopy(o); used = "deepcopy"
+            prev = o
+            out["routes"].append(used)
             out["orig"].append(observe(key, o))
             try:
                 if case.get("handle"):
@@ -281,6 +315,7 @@ def e_sval(v):
     if t == "float": return "(VFloat %s)" % Z(fbits(float.fromhex(v["v"])))
     if t == "s": return "(VStr %s)" % zstr(v["v"])
     if t == "by": return "(VBytes %s)" % zbytes(v["v"])
+    if t == "list": return "(VArr TF64 %s %s)" % (zl([len(v["d"])]), zl([fbits(float.fromhex(x)) for x in v["d"]]))     # copy cases only
     raise ValueError("value of kind %r has no model counterpart" % t)
 def e_oval(v):
     if v["t"] == "dict":
@@ -323,14 +358,21 @@ class _Heap:
             items = []
             for k, x in sorted(v["v"].items()):
                 if opaque and x is not None: items.append("(%s, %s)" % (zstr(k), self.add("(COpaque 1 %s)" % zl(_data(x)))))
+                elif x is not None and x["t"] == "list":      # a python list: one mutable cell that both copy.copy and copy.deepcopy duplicate
+                    items.append("(%s, %s)" % (zstr(k), self.add("(COpaque 3 %s)" % zl([fbits(float.fromhex(y)) for y in x["d"]]))))
                 else: items.append("(%s, %s)" % (zstr(k), self.hv(x)))
             return self.add("(CDict %s)" % E.lst(items, str))
         if t in ("int", "float", "s", "by") or (t in DT and v.get("sc")): return "(HImm %s)" % e_sval(v)
         return self.add("(CArr %s)" % e_sval(v))
     def render(self): return E.lst(self.cells, str)
 
+def _nested_dict(v):
+    return v is not None and v.get("t") == "dict" and any(x is not None and x.get("t") == "dict" for x in v["v"].values())
+
 def emit_copy(case, out):
     key = case["cls"]; H = _Heap()
+    # the heap model observes containers one level deep: a dictionary inside a hyper-parameter dictionary is checked by the predicate only
+    if any(_nested_dict(v) for v in out["before"].values()): return None
     names = attrs(key)
     fields = []
     for a in names:
@@ -350,7 +392,7 @@ def emit_copy(case, out):
         return (a, "", k) if a == "gpmod" else (a, k, "")
     def e_path(n):
         a, k, kf = path(n); return "(%s, %s, %s)" % (E.s(a), zstr(k), E.s(kf))
-    shares = E.lst([n for n, v in out["shares"].items() if v is not None],
+    shares = E.lst([n for n, v in out["shares"].items() if v is not None and n.count(".") <= 1],
                    lambda n: "(%s, %s, %s, %s)" % (E.s(path(n)[0]), zstr(path(n)[1]), E.s(path(n)[2]), E.b(out["shares"][n])))
     changed = E.lst([n for n in out["before"] if not veq(out["before"][n], out["after"].get(n))], E.s)
     watch = E.lst([n for n in out["before"] if n not in derived], lambda n: "(%s, %s)" % (E.s(n), e_path(n)))
@@ -419,15 +461,26 @@ def emit_df(case, out):
             return "(mkG %s %s %s %s %s %s)" % (zl(v["vrnt_chrgrp"]["d"]), zl(v["vrnt_phypos"]["d"]), e_ozl(v.get("vrnt_stop")) if ext else "None",
                                                 E.lst(v["vrnt_genpos"]["d"], e_f), e_ostrs(v.get("vrnt_name")) if ext else "None", e_ostrs(v.get("vrnt_fncode")) if ext else "None")
         u = "UcM" if case["opts"].get("units", "cM") in ("cM", "centiMorgans") else "UM"
-        if "exc" in b: back = "None"
+        if "exc" in b: back = "None"; kind_ok = "true"
         else:
             meta = "None"
             if all(b[k] is not None for k in VRNT_META): meta = "(Some (%s, %s, %s, %s))" % tuple(zl(b[k]["d"]) for k in VRNT_META)
             sp = "None" if b.get("spline") is None else "(Some %s)" % E.lst(sorted(b["spline"]["v"].items(), key=lambda kv: int(kv[0])),
                                                                              lambda kv: "(%s, %s)" % (Z(int(kv[0])), E.lst(kv[1]["d"], e_f)))
             back = "(Some (%s, %s, %s))" % (e_g(b), meta, sp)
-        return "agree_gmap %s %s %s %s %s %s %s %s" % (E.b(ext), u, E.b(case["obj"].get("_auto_group", True)), E.b(case["obj"].get("_spline", True)),
-                                                      e_g(o), e_tbl(df), e_tbl(dfr), back)
+            # interpolation settings: what the reader's constructor was given (the source's, or nothing with default arguments) vs what it kept
+            given = ({"t": "s", "v": "linear"}, {"t": "s", "v": "extrapolate"}) if case["opts"].get("defaults") else (o["spline_kind"], o["spline_fill_value"])
+            if all(v is not None and v["t"] == "s" for v in given + (b["spline_kind"], b["spline_fill_value"])):
+                kind_ok = "agree_kind %s %s %s %s %s %s" % (E.b(ext), zstr(given[0]["v"]), zstr(given[1]["v"]),
+                                                            E.b(True if case["opts"].get("defaults") else case["obj"].get("_spline", True)),
+                                                            zstr(b["spline_kind"]["v"]), zstr(b["spline_fill_value"]["v"]))
+            else: kind_ok = "false"
+        ag, spl = E.b(case["obj"].get("_auto_group", True)), E.b(case["obj"].get("_spline", True))
+        if case["opts"].get("defaults"):
+            return "andb (agree_gmap_default %s %s %s %s %s) (%s)" % (E.b(ext), e_g(o), e_tbl(df), e_tbl(dfr), back, kind_ok)
+        if case["via"] in ("egmap", "egmap_file"):
+            return "andb (agree_egmap %s %s %s %s %s) (%s)" % (ag, spl, E.b(case["via"] == "egmap"), e_tbl(dfr), back, kind_ok)
+        return "andb (agree_gmap %s %s %s %s %s %s %s %s) (%s)" % (E.b(ext), u, ag, spl, e_g(o), e_tbl(df), e_tbl(dfr), back, kind_ok)
     if key == "CM":
         def e_m(v): return "(mkCM %s %s %s)" % (E.lst2(rows2(v["mat"]), e_f), e_ostrs(v["taxa"]), e_ozl(v["taxa_grp"]))
         if "exc" not in b and b["taxa"] is not None and b["taxa"]["t"] != "str": return None      # integer labels parsed from a CSV: predicate only
@@ -524,6 +577,8 @@ def g_taxa_part(rng, o, n, mode, meta=True):
 def g_vrnt_part(rng, o, p, mode):
     o["vrnt_chrgrp"] = opt(rng, mode, lambda: g_int(rng, [p], 1, 3))
     o["vrnt_phypos"] = opt(rng, mode, lambda: g_int(rng, [p], 1, 10 ** 9))
+    if o["vrnt_phypos"] is not None and rng.random() < 0.15:
+        o["vrnt_phypos"]["d"][rng.randrange(p)] = rng.choice([2 ** 53 + 1, 2 ** 62 + 3, 2 ** 31, 2 ** 63 - 1])
     o["vrnt_name"] = opt(rng, mode, lambda: g_str(rng, p))
     o["vrnt_genpos"] = opt(rng, mode, lambda: g_f64(rng, [p]))
     o["vrnt_xoprob"] = opt(rng, mode, lambda: g_f64(rng, [p]))
@@ -549,9 +604,9 @@ def g_hyper(rng, mode):
         else: d[k] = None
     return {"t": "dict", "v": d}
 
-def gen_obj(rng, key, mode=None):
+def gen_obj(rng, key, mode=None, dims=None):
     mode = mode or rng.choice(["all", "none", "mix", "mix", "mix"])
-    n, p, t = rng.randint(1, 4), rng.randint(1, 5), rng.randint(1, 3)
+    n, p, t = dims or (rng.randint(1, 4), rng.randint(1, 5), rng.randint(1, 3))
     o = {}
     if key == "DM":
         sh = rng.choice([[n], [n, p], [2, n, p]])
@@ -594,14 +649,19 @@ def gen_obj(rng, key, mode=None):
     return o
 
 GROUPS = [None, "g", "g/", "a/b", "a/b/", "/abs/x", "données/ü", "日本/x/", "a//b", "deep/er/and/deeper"]
-def gen_h5(rng, key=None, ntr=None):
+def gen_h5(rng, key=None, ntr=None, dims_in=None):
     key = key or rng.choice(H5_CLASSES)
     k = rng.random()
     nsteps = 1 if k < 0.3 else (2 if k < 0.7 else 3)
     modes = [None] * nsteps
     if nsteps >= 2 and rng.random() < 0.6:          # rich -> poor, the pattern named in the property
         modes = ["all"] + [rng.choice(["none", "mix"]) for _ in range(nsteps - 1)]
-    objs = [gen_obj(rng, key, m) for m in modes]
+    routes = ["new"] * nsteps
+    dims = None
+    if rng.random() < 0.45:
+        routes = [rng.choice(["new", "copy", "deepcopy"])] + [rng.choice(["new", "setattr", "setattr", "copy", "deepcopy"]) for _ in range(nsteps - 1)]
+        if "setattr" in routes: dims = dims_in or (rng.randint(1, 4), rng.randint(1, 5), rng.randint(1, 3))      # setters check lengths against the matrix
+    objs = [gen_obj(rng, key, m, dims or dims_in) for m in modes]
     if key == "GE":
         for o in objs: o["_ntrait"] = objs[0]["_ntrait"]; 
         for o in objs:
@@ -609,7 +669,9 @@ def gen_h5(rng, key=None, ntr=None):
                 if o.get(f) is not None and o[f]["sh"] != [o["_ntrait"]]: o[f] = g_f64(rng, [o["_ntrait"]], nonneg=True)
     ow = [True] + [rng.random() < 0.85 for _ in range(nsteps - 1)]
     if rng.random() < 0.1: ow[0] = False
-    return {"kind": "h5", "cls": key, "group": rng.choice(GROUPS), "handle": rng.random() < 0.4, "objs": objs, "overwrite": ow}
+    c = {"kind": "h5", "cls": key, "group": rng.choice(GROUPS), "handle": rng.random() < 0.4, "objs": objs, "overwrite": ow}
+    if routes != ["new"] * nsteps: c["routes"] = routes
+    return c
 
 def gen_cases(rng, tier):
     cases = []
@@ -618,7 +680,7 @@ def gen_cases(rng, tier):
         for _ in range(N): cases.append(gen_h5(rng, key))
     M = 20 if tier == "quick" else 150
     for key in CLS:
-        for _ in range(M): cases.append(gen_copy(rng, key))
+        for i in range(M): cases.append(gen_copy(rng, key, i))
     for i in range(64 if tier == "quick" else 600): cases.append(gen_vcf(rng, ties=(i % 8 == 7)))
     for key in ["BV", "CM", "VM", "SGMAP", "EGMAP", "ALGM", "ADLGM"]:
         for i in range(30 if tier == "quick" else 250): cases.append(gen_df(rng, key))
@@ -709,9 +771,13 @@ def classify(case, out, clauses):
         if "gmap-cM-rounding" in tags:
             if key not in ("SGMAP", "EGMAP") or case["opts"].get("units") not in ("cM", "centiMorgans"): return None
             if all(0.01 * (100.0 * x) == x for x in _fl(o["vrnt_genpos"])): return None
+        if "gmap-default-units" in tags and not (key in ("SGMAP", "EGMAP") and case["opts"].get("defaults")): return None
+        if "egmap-names-lost" in tags and not (key == "EGMAP" and case["via"] == "egmap" and (o.get("vrnt_name") is not None or o.get("vrnt_fncode") is not None)): return None
+        if "egmap-spline-kind" in tags and not (key == "EGMAP" and o.get("_kind") and o.get("_kind_build") and o.get("_spline", True)): return None
         if "csv-float-parse" in tags:
-            if case["via"] != "csv" or not any(_long_float(x) for v in o.values() if isinstance(v, dict) and v.get("t") == "f64" for x in _fl(v)): return None
-        for t, fid in (("csv-float-parse", "C16-csv-float-parse"), ("bv-location-scale", "C16-bv-pandas-location-scale"), ("vmat-sorted", "C16-vmat-pandas-sorted"),
+            if case["via"] not in ("csv", "egmap", "egmap_file") or not any(_long_float(x) for v in o.values() if isinstance(v, dict) and v.get("t") == "f64" for x in _fl(v)): return None
+        for t, fid in (("gmap-default-units", "C16-gmap-default-units-mismatch"), ("egmap-names-lost", "C16-egmap-names-lost"),
+                       ("egmap-spline-kind", "C16-egmap-ctor-ignores-spline-kind"), ("csv-float-parse", "C16-csv-float-parse"), ("bv-location-scale", "C16-bv-pandas-location-scale"), ("vmat-sorted", "C16-vmat-pandas-sorted"),
                        ("gmap-cM-rounding", "C16-gmap-cM-rounding"), ("absent-labels", "C16-df-absent-labels")):
             if t in tags: return fid
     return None
@@ -760,6 +826,8 @@ def _mutate_arr(x):
 def run_copy(case):
     key = case["cls"]
     o = build(key, case["obj"])
+    if case.get("src") == "copy": o = _copy.copy(o)                 # lifecycle: the source is itself a copy / a deep copy
+    elif case.get("src") == "deepcopy": o = _copy.deepcopy(o)
     before = observe_c(key, o)
     how = case["how"]
     if how == "copy": c = _copy.copy(o)
@@ -781,6 +849,9 @@ def run_copy(case):
                     else:
                         s = _shares(xv, yv)
                         if s is not None: out["shares"]["%s.%s" % (a, k)] = s
+                        if isinstance(xv, dict) and isinstance(yv, dict):          # one level further: members of a dictionary-valued member
+                            for kk in xv:
+                                if kk in yv and _shares(xv[kk], yv[kk]): out["shares"]["%s.%s.%s" % (a, k, kk)] = True
         if a == "gpmod":
             for b in ("beta", "u_a"): out["shares"]["gpmod." + b] = bool(numpy.shares_memory(getattr(x, b), getattr(y, b)))
     # mutate everything reachable from the copy
@@ -791,6 +862,14 @@ def run_copy(case):
             for k, v in list(y.items()):
                 if isinstance(v, numpy.ndarray): _mutate_arr(v)
                 elif hasattr(v, "y"): _mutate_arr(v.y)
+                elif isinstance(v, list):
+                    if v: v[0] = 12345.5
+                    v.append(-1.0)
+                elif isinstance(v, dict):
+                    for vv in v.values():
+                        if isinstance(vv, numpy.ndarray): _mutate_arr(vv)
+                        elif isinstance(vv, list): vv.append(-1.0)
+                    v["__new__"] = 1
             y["__new__"] = 1
         elif a == "gpmod":
             _mutate_arr(y.beta); _mutate_arr(y.u_a)
@@ -825,10 +904,26 @@ def gen_map_obj(rng, key, spline=None):
         o["vrnt_fncode"] = g_str(rng, p) if rng.random() < 0.4 else None
     return o
 
-def gen_copy(rng, key=None):
+HOWS = ["copy", "deepcopy", "m_copy", "m_deepcopy"]
+def g_hyper_mutable(rng):
+    """a hyper-parameter dictionary with mutable members: always an ndarray, often a python list, sometimes a dictionary"""
+    d = {rng.choice(["a", "λ"]): g_f64(rng, [rng.randint(1, 3)], special=False)}
+    if rng.random() < 0.6: d["lst"] = {"t": "list", "d": [fhex(rng.randint(-8, 8) / 4) for _ in range(rng.randint(0, 3))]}
+    if rng.random() < 0.3: d["sub"] = {"t": "dict", "v": {"w": g_f64(rng, [2], special=False), "n": {"t": "int", "v": rng.randint(0, 9)}}}
+    if rng.random() < 0.5: d["lr"] = {"t": "float", "v": fhex(rng.choice(FLOATS[:8]))}
+    return {"t": "dict", "v": d}
+
+def gen_copy(rng, key=None, i=None):
     key = key or rng.choice(list(CLS))
     o = gen_map_obj(rng, key) if key in ("SGMAP", "EGMAP") else gen_obj(rng, key)
-    return {"kind": "copy", "cls": key, "obj": o, "how": rng.choice(["copy", "deepcopy", "m_copy", "m_deepcopy"])}
+    if key in ("ALGM", "ADLGM") and rng.random() < 0.8: o["hyperparams"] = g_hyper_mutable(rng)
+    if key in ("SGMAP", "EGMAP") and rng.random() < 0.5:
+        o["_kind"] = rng.choice(["nearest", "previous", "next"]); o["_kind_build"] = rng.random() < 0.7
+    c = {"kind": "copy", "cls": key, "obj": o, "how": rng.choice(HOWS) if i is None else HOWS[i % 4]}       # every form for every class
+    r = rng.random()
+    if r < 0.15: c["src"] = "copy"
+    elif r < 0.3: c["src"] = "deepcopy"
+    return c
 
 SHARED_ON_PURPOSE = {"GE": {"rng"}}
 def pred_copy(case, out):
@@ -959,9 +1054,12 @@ def df_options(key, o, case):
                   trait_col="trait", variance_col="variance")
         return kw, dict(kw)
     if key in ("SGMAP", "EGMAP"):
+        if opts.get("defaults"): return {}, {}                       # default arguments on both sides
         u = opts.get("units", "cM")
         ag = bool(case["obj"].get("_auto_group", True)); sp = bool(case["obj"].get("_spline", True))
-        to = dict(vrnt_genpos_units=u); fr = dict(vrnt_genpos_units=u, auto_group=ag, auto_build_spline=sp)
+        to = dict(vrnt_genpos_units=u)
+        # matching options: units, grouping, and the interpolation settings of the source
+        fr = dict(vrnt_genpos_units=u, auto_group=ag, auto_build_spline=sp, spline_kind=o.spline_kind, spline_fill_value=o.spline_fill_value)
         if key == "EGMAP":
             fr["vrnt_name_col"] = "name" if o.vrnt_name is not None else None
             fr["vrnt_fncode_col"] = "fncode" if o.vrnt_fncode is not None else None
@@ -969,6 +1067,17 @@ def df_options(key, o, case):
     if key in ("ALGM", "ADLGM"):
         return dict(trait_cols="trait"), dict(trait_cols="infer", model_name=o.model_name, hyperparams=o.hyperparams)
     raise ValueError(key)
+
+def egmap_text(o):
+    """an egmap file written by hand: chr, pos, stop, Morgans and the optional columns under the names from_egmap documents"""
+    cols = ["chr_grp", "chr_start", "chr_stop", "map_pos"] + (["mkr_name"] if o.get("vrnt_name") else []) + (["map_fncode"] if o.get("vrnt_name") and o.get("vrnt_fncode") else [])
+    rows = ["\t".join(cols)]
+    for i in range(len(o["vrnt_chrgrp"]["d"])):
+        r = [str(o["vrnt_chrgrp"]["d"][i]), str(o["vrnt_phypos"]["d"][i]), str(o["vrnt_stop"]["d"][i]), repr(float.fromhex(o["vrnt_genpos"]["d"][i]))]
+        if "mkr_name" in cols: r.append(o["vrnt_name"]["d"][i])
+        if "map_fncode" in cols: r.append(o["vrnt_fncode"]["d"][i])
+        rows.append("\t".join(r))
+    return "\n".join(rows) + "\n"
 
 def run_df(case):
     import pandas
@@ -981,7 +1090,14 @@ def run_df(case):
     multi = key in ("ALGM", "ADLGM")
     files = []
     try:
-        if case["via"] == "pandas":
+        if case["via"] in ("egmap", "egmap_file"):
+            fn = _tmp(case, ".egmap"); files = [fn]
+            if case["via"] == "egmap": o.to_egmap(fn)
+            else:
+                with open(fn, "w", encoding="utf-8") as f: f.write(egmap_text(case["obj"]))      # a file as the format description has it
+            out["df_read"] = table(pandas.read_csv(fn, sep="\t")); out["df"] = out["df_read"]
+            back = cls.from_egmap(fn, **{k: v for k, v in fr.items() if k in ("auto_group", "auto_build_spline", "spline_kind", "spline_fill_value")})
+        elif case["via"] == "pandas":
             if multi:
                 dd = o.to_pandas_dict(**to); out["df"] = {k: table(v) for k, v in dd.items()}
                 back = cls.from_pandas_dict(dd, **fr)
@@ -1037,7 +1153,15 @@ def gen_df(rng, key=None, via=None):
             for f in ("vrnt_name", "vrnt_fncode"):
                 if o[f] is not None: o[f] = {"t": "str", "d": [rng.choice(CSV_LABELS) for _ in range(p)]}
         opts["units"] = rng.choice(["cM", "cM", "M", "centiMorgans", "Morgans"])
-        if csv or rng.random() < 0.5:
+        r = rng.random()
+        if r < 0.15:                                    # default arguments on both sides (the defaults group and build the spline)
+            opts = {"defaults": True}; o["_auto_group"] = True; o["_spline"] = True
+        elif key == "EGMAP" and r < 0.45:               # the egmap file pair, and files written as the format is documented
+            via = rng.choice(["egmap", "egmap", "egmap_file"]); opts = {"units": "M"}
+            if via == "egmap_file" and o["vrnt_name"] is None: o["vrnt_fncode"] = None
+        if rng.random() < 0.4 and not opts.get("defaults"):
+            o["_kind"] = rng.choice(["nearest", "previous", "next"]); o["_kind_build"] = rng.random() < 0.7
+        if csv or via != "pandas" or rng.random() < 0.5:
             o["vrnt_genpos"]["d"] = [fhex(round(float.fromhex(x) * 256) / 256 + 1 / 256) for x in o["vrnt_genpos"]["d"]]
         return {"kind": "df", "cls": key, "via": via, "obj": o, "opts": opts}
     mode = rng.choice(["all", "all", "mix", "none"])
@@ -1130,6 +1254,26 @@ def pred_df(case, out):
                 rest = [f for f in rest if f not in exact_pos_bits]
         rest = [f for f in rest if f in ("mat",) or f not in ("taxa", "taxa_grp", "trait")]
     elif key in ("SGMAP", "EGMAP"):
+        if case["opts"].get("defaults"):
+            # default arguments on both sides: the writer's default unit is the centiMorgan, the reader's the Morgan, and the extended
+            # reader takes no name / function-code column by default
+            pos = [f for f in rest if f in ("vrnt_genpos", "spline")]
+            x100 = b["vrnt_genpos"] is not None and _ulps(_fl(b["vrnt_genpos"]), [100.0 * x for x in _fl(o["vrnt_genpos"])], 2)
+            lost = [f for f in rest if f in ("vrnt_name", "vrnt_fncode") and o[f] is not None and b[f] is None]
+            if pos and x100:
+                bad.append("[gmap-default-units] to_pandas()/from_pandas() with default arguments: genetic positions read back multiplied by 100 (written in cM, read as M)")
+                rest = [f for f in rest if f not in pos]
+            if lost:
+                bad.append("[gmap-default-units] default arguments: %s not read back (from_pandas takes no such column by default)" % ",".join(lost))
+                rest = [f for f in rest if f not in lost]
+        if case["via"] == "egmap":
+            lost = [f for f in rest if f in ("vrnt_name", "vrnt_fncode") and o[f] is not None and b[f] is None]
+            if lost:
+                bad.append("[egmap-names-lost] to_egmap/from_egmap: %s lost (written under a column name from_egmap does not look for)" % ",".join(lost))
+                rest = [f for f in rest if f not in lost]
+        if key == "EGMAP" and "spline_kind" in rest and o["spline_kind"] != b["spline_kind"] and _scalar(b["spline_kind"]) == ("s", "linear"):
+            bad.append("[egmap-spline-kind] spline_kind %r given to the reader comes back as 'linear' (the constructor rebuilds the spline with build_spline's defaults)" % o["spline_kind"]["v"])
+            rest = [f for f in rest if f != "spline_kind"]
         gp = [f for f in rest if f in ("vrnt_genpos", "spline")]
         if gp:
             ok = b["vrnt_genpos"] is not None and _ulps(_fl(b["vrnt_genpos"]), _fl(o["vrnt_genpos"]))
@@ -1138,7 +1282,7 @@ def pred_df(case, out):
             if not ok: bad.append("genetic positions differ by more than rounding")
             else: bad.append("[gmap-cM-rounding] genetic positions not bit-identical after the cM <-> M conversion 0.01*(100*x)")
         rest = [f for f in rest if f not in ("vrnt_genpos", "spline")]
-    if case["via"] == "csv":
+    if case["via"] in ("csv", "egmap", "egmap_file"):
         fl = [f for f in rest if o[f] is not None and b[f] is not None and o[f]["t"] == "f64" and b[f]["t"] == "f64"
               and o[f]["sh"] == b[f]["sh"] and _ulps(_fl(o[f]), _fl(b[f]), 64)]
         if fl: bad.append("[csv-float-parse] %s differ in the last bits after to_csv/from_csv (pandas' default float parser is not round-trip exact)" % ",".join(fl))
